@@ -44,6 +44,9 @@ package prometheus
 // validateMetrics: the family table is only touched under the collector's lock; the first definition of a name is recorded
 // and never replaced by a later, conflicting one (first definition wins)
 //@ guarded_by collector.mu: metricFamilies
+//@ extern github.com/prometheus/client_model/go MetricFamily.GetHelp() (s string)
+//@   pure
+//@   trusted "generated protobuf getter (external library): a deterministic function of the message"
 //@ func (c *collector) validateMetrics(name string, description string, metricType *dto.MetricType) (drop bool, help string)
 //@   acquires c.mu
 //@   unchecked frame,no-panic protobuf getters and logging are outside the contracts
@@ -51,6 +54,11 @@ package prometheus
 //@   ensures !old(has(c.metricFamilies, name)) ==> !drop && help == "" && has(c.metricFamilies, name)
 //@   ensures old(has(c.metricFamilies, name)) ==> c.metricFamilies[name] == old(c.metricFamilies[name])
 //@   ensures forall k string : k != name ==> has(c.metricFamilies, k) == old(has(c.metricFamilies, k)) && (has(c.metricFamilies, k) ==> c.metricFamilies[k] == old(c.metricFamilies[k]))
+// "no conflict" (keep the instrument's own help text) is answered only when the recorded help and the description are the SAME string;
+// any difference - letter case included - is a conflict and yields the recorded help (so one family never carries two help texts)
+//@   assert@return#4 : !$ret0 && $ret1 == "" && emf.GetHelp() == description
+//@   assert@return#3 : !$ret0 && $ret1 == emf.GetHelp()
+//@   assert@return#2 : $ret0
 
 // explicit-bucket histograms: the series' count and sum are the data point's count and sum (NOT the running bucket total, which
 // leaves out the overflow bucket), labels and label values stay paired, bucket k holds the running total of counts 0..k;
